@@ -75,13 +75,13 @@ def explore_mix(profiles, tier, seed, native=True, dbg=True, miri=True, asan=Fal
 
 
 RULES = {
-    1: "closed-loop generated histories over a pool of <=8 handles, every op of the vocabulary with boundary-biased arguments; after EVERY step every live handle is compared byte-for-byte with its String model and every returned value with String's. distinct_nontrivial = distinct (op, storage kind before, sharing class, length class, outcome, storage kind after) signatures of steps that changed the target's text, presence or storage kind",
+    1: "closed-loop generated histories over a pool of <=8 handles, every op of the vocabulary with boundary-biased arguments (one constructor in six builds a near-duplicate of a live text: same length, one late character of the same UTF-8 width changed, and clone_from prefers such a twin as its destination); after EVERY step every live handle is compared byte-for-byte with its String model and every returned value with String's. distinct_nontrivial = distinct (op, storage kind before, sharing class, length class, outcome, storage kind after) signatures of steps that changed the target's text, presence or storage kind",
     2: "sharing-heavy histories; before each step every non-target handle is snapshotted (len, as_ptr, capacity, storage kind, raw 2 words) and compared after the step, and its text is compared with its untouched String model. A step counts (non-trivial) only if the target shared a heap buffer or static text with >=1 other live handle when the step ran; distinct = (op, sharing class, outcome, storage kind) signatures of such steps",
     3: "every alloc/realloc/dealloc of the crate goes through the shim (SHADOW natively: guard zones, 0xCD fill, moving realloc, 0xDD poison + quarantine; TRACK under Miri/ASan/memcheck: live-table + layout check while the sanitizer sees the real events). After every step: refcount == number of live handles per buffer, live blocks == distinct buffers referenced, block size == 16 + capacity; at the end of every history all handles are dropped and the heap must be empty. distinct = step signatures as in C01 (all steps count)",
     7: "String's own panic is the oracle (catch_unwind on both); after a rejected call the target's len/ptr/capacity/storage/raw words, all other handles, the set of live blocks and all reference counts must be unchanged. distinct = (op, storage kind, sharing class, length class) of calls String rejects",
     8: "every clone/clone_from/From<&LeanString>/to_lean_string(LeanString) step: allocator request delta must be zero (one dealloc allowed when the destination held the last reference of another buffer), copy.as_ptr()==src.as_ptr() for heap/static, raw words equal for inline, refcount +1, copy == src. distinct = (route, source storage kind, source sharing class, length class, dst-was-last-owner)",
     9: "constructors are built into a temporary and the shim's request counter is read before assignment: <=16 bytes => 0 requests, inline storage; >=17 bytes through a text route => exactly 1 alloc, 0 realloc/dealloc, capacity == len; edits of inline strings whose result is <=16 bytes => 0 requests, still inline. distinct = (route, length, final byte for 16-byte texts) / (edit op, len before, len after)",
-    10: "'static texts are harness-leaked writable buffers compared with pristine copies after every step; from_static_str / clone / pop / truncate / clear on static-stored handles must issue 0 requests and keep as_ptr; first write must leave static storage. distinct = (op, static length class, resulting storage)",
+    10: "'static texts are harness-leaked writable buffers compared with pristine copies after every step; from_static_str / clone / pop / truncate / clear on static-stored handles must issue 0 requests and keep as_ptr; first write must leave static storage; the static profile also 'lands' borrowed texts on exactly the inline limit (and limit+-1, of both pointer widths) by truncate/pop and then runs the zero-growth operations there (reserve(0), empty insert_str/push_str/+=/write!, extend with an empty iterator or a size hint of 0, shrink_to(0)). distinct = (op, static length class, resulting storage)",
     11: "capacity()>=len() for every handle after every step; with_capacity(n)/reserve(n) postconditions incl. exclusive ownership; append/insert whose result fits the capacity reported just before the call on an exclusively owned (inline or refcount-1 heap) string => 0 allocator requests and unchanged as_ptr. distinct = (op, storage kind, fills-capacity-exactly) + reserve/with_capacity classes",
     12: "every primitive growing call (push, push_str, insert, insert_str, reserve, +=) whose need exceeds the capacity reported before the call and whose result is heap storage: new capacity must be >= len+len/2, >= need and <= max(len+len/2, need). distinct = (storage kind before, sharing class, relation of the added amount to len/2, op)",
     13: "around every shrink_to/shrink_to_fit (and try_ forms): capacity must not grow (beyond 16), not fall below len, not fall below m if it was >= m, and for heap targets with capacity > max(len,m) must be exactly max(len,m) (or inline if <=16), shared or not. distinct = (storage kind, sharing class, capacity/len ratio class, relation of m to len/cap, inline-target)",
@@ -339,7 +339,7 @@ def plan_for(prop, tier, seed):
     return p
 
 
-RULE_C04 = ("random programs from the property's grammar: one heap buffer (17-64 bytes, optional spare capacity), 2-3 threads (the main thread is one of them) each owning a clone (optionally pre-truncated) or borrowing &LeanString, each running 1-4 ops from {clone, clone_from, to_lean_string, drop, read, push, push_str, insert, insert_str, remove, retain, truncate, pop, clear, reserve, shrink_to}; plus two directed program shapes: 'directed pairs' (one thread reads and gives its handle up while the other, after 0-3 scheduler yields, makes ONE copy-or-in-place decision - reserve, push, insert, remove, retain, truncate, pop, clear, shrink_to in turn - so that the decision is taken while the count goes 2 -> 1) and, natively, 'hammers' (every thread clones and drops 40-160 times in a tight loop before editing its own handle, so that count updates overlap in time); released from one start barrier; every third Miri shard uses the release profile because the crate's debug assertions contain Acquire loads that would restore a missing happens-before edge; yields injected at the hook points between the uniqueness test / decrement and the access they guard. Oracle for races/UAF/leaks: Miri (vector clocks + weak-memory emulation), several -Zmiri-seed and preemption rates; oracle for values: one String model per thread; exactly-once release: alloc count == dealloc count after all handles are dropped. evaluations = executions; distinct_nontrivial = distinct observed interleavings, i.e. distinct sequences of (thread, hook site) per program as recorded by the Relaxed trace log")
+RULE_C04 = ("random programs from the property's grammar: one heap buffer (17-64 bytes, optional spare capacity), 2-3 threads (the main thread is one of them) each owning a clone (optionally pre-truncated) or borrowing &LeanString, each running 1-4 ops from {clone, clone_from, to_lean_string, drop, read, push, push_str, insert, insert_str, remove, retain, truncate, pop, clear, reserve, shrink_to}; plus two directed program shapes: 'directed pairs' (one thread reads and gives its handle up while the other, after 0-3 scheduler yields, makes ONE copy-or-in-place decision - reserve, push, insert, remove, retain, truncate, pop, clear, shrink_to in turn - so that the decision is taken while the count goes 2 -> 1; the sites whose in-place branch overwrites, moves or frees bytes the other thread has just read are drawn twice as often, and the giving thread reads first in 3 of 4 such programs) and, natively, 'hammers' (every thread clones and drops 40-160 times in a tight loop before editing its own handle, so that count updates overlap in time); released from one start barrier; every third Miri shard uses the release profile because the crate's debug assertions contain Acquire loads that would restore a missing happens-before edge; yields injected at the hook points between the uniqueness test / decrement and the access they guard. Oracle for races/UAF/leaks: Miri (vector clocks + weak-memory emulation), several -Zmiri-seed and preemption rates; oracle for values: one String model per thread; exactly-once release: alloc count == dealloc count after all handles are dropped. evaluations = executions; distinct_nontrivial = distinct observed interleavings, i.e. distinct sequences of (thread, hook site) per program as recorded by the Relaxed trace log")
 
 
 def _strip(args, keys):
